@@ -75,6 +75,13 @@ def gen_inputs(seed, n_random):
     for w in special:
         for ch in edge:
             tag_lists += [[ch + w], [w + ch], [ch + w.upper() + ch, 'food']]
+    # tags that are property names of JS objects, and tags containing separators either side might split or join on
+    for w in ['constructor', '__proto__', 'toString', 'hasOwnProperty', 'valueOf', 'prototype', 'length', 'size', 'has', 'Constructor',
+              '__PROTO__', '__defineGetter__', 'isPrototypeOf']:
+        tag_lists += [[w], [w, 'food'], ['Income', w]]
+    for sep in [',', ';', '|', ' ', '/', ':', '\t', '\n', ', ']:
+        for w in special:
+            tag_lists += [['bonus' + sep + w], [w + sep + 'tax'], ['a' + sep + w.upper() + sep + 'b'], ['transfer', 'salary' + sep + w]]
     cases = [(a, t) for a in amounts for t in tag_lists]
     for _ in range(n_random):
         a = rnd.choice([rnd.uniform(-1e4, 1e4), rnd.randint(-10**6, 10**6) / 100.0, rnd.choice(amounts)])
